@@ -45,6 +45,15 @@ def errStr : Err → String
   | .playerOldWithoutNew => "PlayerOldWithoutNew"
   | .inputDiffWithoutNew => "InputDiffWithoutNew"
 
+/-- What `player_pos(cid)` / `input(cid)` return after the last call, for every client id with an
+entry, in ascending order of the client id. -/
+def accessStr (a : Access) : String :=
+  let ps := (a.players.toArray.qsort (fun x y => x.1 < y.1)).toList.map fun (c, (x, y)) => s!"{c}:{x}:{y}"
+  let is := (a.inputs.toArray.qsort (fun x y => x.1 < y.1)).toList.map fun (c, v) =>
+    ":".intercalate (toString c :: v.map toString)
+  let j (l : List String) : String := if l.isEmpty then "-" else ",".intercalate l
+  s!"P {j ps} I {j is}"
+
 def outputStr (o : Output) : String :=
   match o.final with
   | .outOfFuel => "model-out-of-fuel"
@@ -54,7 +63,7 @@ def outputStr (o : Output) : String :=
       | .err e => "err:" ++ errStr e
       | .cbErr => "err:Cb"
       | _ => "?"
-    s!"{fs} {o.cidsEnd} {o.items.length} {if o.items.isEmpty then "-" else " ".intercalate (o.items.map itemStr)}"
+    s!"{fs} {o.cidsEnd} {o.items.length} {if o.items.isEmpty then "-" else " ".intercalate (o.items.map itemStr)} {accessStr o.access}"
 
 /-- The header's JSON content is outside the model: the request says which version the (valid)
 header text carries. -/
